@@ -83,7 +83,7 @@ def check(tier, seed):
                             {"component": "c13", "theorem_or_correspondence": "correspondence c13: extracted greedy_fvs replaying harness/c13.cpp output as picks",
                              "case": cases[i], "impl": io[i], "model": mo[i], **hd}, False)
         # graphs beyond the range of narrow index types (n > 2^8, n > 2^16): judged against the property text only
-        bigs = [gen.graph_tokens(g) for g in gen.big_graphs(c.rng)]
+        bigs = [gen.graph_tokens(g) for g in gen.big_graphs(c.rng, fan=True)]
         bio = lib.run_lines([exe], bigs, par=1, timeout=600)
         c.extra["big_graphs"] = [int(b.split()[0]) for b in bigs]
         for b, o in zip(bigs, bio):
